@@ -5,6 +5,7 @@ package vchain
 
 import (
 	"bytes"
+	"errors"
 	"path/filepath"
 	"sort"
 	"sync"
@@ -30,6 +31,9 @@ type RecStore struct {
 	// Delay, when set, is called inside PutChangeSet before the data reaches
 	// the inner store (the window in which MemCachedStore serves from tempstore).
 	Delay func()
+	// Fail, when set, is asked before every batch write; true refuses the batch
+	// (nothing written, an error returned), as a disk that is full or failing does.
+	Fail func() bool
 	// Record turns batch recording on (off by default: it costs memory).
 	Record bool
 	// OnBatch, when set, is called (under the recorder's lock) with the index of
@@ -47,7 +51,13 @@ func (s *RecStore) Seek(r storage.SeekRange, f func(k, v []byte) bool) {
 	s.Inner.Seek(r, f)
 }
 
+// ErrInjectedWriteFailure is what a refused batch write returns.
+var ErrInjectedWriteFailure = errors.New("injected write failure: nothing was written")
+
 func (s *RecStore) PutChangeSet(p, st map[string][]byte) error {
+	if s.Fail != nil && s.Fail() {
+		return ErrInjectedWriteFailure
+	}
 	if s.Record {
 		b := Batch{Puts: make(map[string][]byte, len(p)+len(st))}
 		// Deep copies: a disk keeps the bytes it was given at write time even
